@@ -658,9 +658,6 @@ class CellsImpl(*_cells_impl_base):
         )
         Derivable.__init__(self, is_derived)
 
-        if add_to_space:
-            space._cells.set_item(name, self)
-
         # Set formula
         if base:
             self.formula = base.formula
@@ -670,6 +667,10 @@ class CellsImpl(*_cells_impl_base):
             self.formula = formula.__class__(formula, name=name)
         else:
             self.formula = Formula(formula, name=name)
+
+        # Add to the space after the formula is successfully created
+        if add_to_space:
+            space._cells.set_item(name, self)
 
         if base:
             self.is_cached = base.is_cached
